@@ -1,6 +1,8 @@
 """C09 is assembled from the lifecycle parts of several engines (DESIGN 6.6)."""
 from engines import writer
 
+PROPS = {"C09": "model_checking"}
+
 
 def run(ctx):
     cov = writer.run(ctx)
